@@ -44,7 +44,7 @@ std::string PROP;
 bool th = false;
 
 struct budget_exceeded {};
-long long g_ticks = 0, g_budget = 200000, g_max_ticks = 0;
+long long g_ticks = 0, g_budget = 3000, g_max_ticks = 0; // each tick of a recursive function is a stack frame of the analyzer
 void tick() {
   if (++g_ticks > g_budget) throw budget_exceeded();
 }
